@@ -3,8 +3,12 @@ hypergraphx.generation.hy_mmsbm_sampling.HyMMSBMSampler and independent property
 
 All instrumentation is done from here through attributes (no hook in /repo): `sampler._rng` and
 `sampler._model._rng` are replaced by recording proxies, `_mcmc_step`, `_mcmc_routine`, `_extract_hye`,
-`_match_sequences` are wrapped on the instance, `sample_truncated_poisson` is wrapped in the module namespace and
-`np.random.default_rng` is wrapped while a sampler is built / runs (to know which generator is seeded with what)."""
+`_match_sequences` are wrapped on the instance, `sample_truncated_poisson` and scipy's `stats.poisson.ppf` are
+wrapped RECORD-ONLY (nothing they return is altered) and `np.random.default_rng` is wrapped while a sampler is built /
+runs (to know which generator is seeded with what).  Every case with `ustream = 0` is run a third time on a sampler
+that carries no instrumentation at all; it must deliver the same samples.  `ustream = k > 0` is the adversarial draw
+source for the truncated-Poisson weights: entries of the uniform vector `rng.random(E)` are replaced by extreme values
+`Generator.random` can return (0, 2^-53, 1 - 2^-53, ...) - everything downstream is the real code."""
 import contextlib
 import math
 import signal
@@ -15,9 +19,15 @@ RULE = ("three conditioning modes of HyMMSBMSampler.sample: (A) initial hypergra
         "integer or string labels (isolated nodes, sometimes weighted, sometimes more rows in u than nodes), (B) degree + size "
         "sequence with equal totals - taken from a random hypergraph (mostly matching) or a skewed split of the same total "
         "(mostly non-matching), plus a few pairs with unequal totals (correspondence only), (C) sampling from the model "
-        "(u, w dyadic k/8, max size 3-5, exact dyadic sampling on/off); burn_in and intermediate steps from {0,1,5,40}, "
-        "3 consecutive samples per run, every run executed twice with the same seed; plus direct calls of "
-        "_pairwise_reshuffle, _deg_seq_to_dict and _extract_hye (all four flag combinations). A case is distinct by its "
+        "(u, w dyadic k/8, max size 3-5, exact dyadic sampling on/off), (H) hard communities: one-hot u, diagonal w, initial "
+        "hypergraphs / sequences with cross-community hyperedges whose Poisson parameter is structurally zero, 0-5 MCMC steps; "
+        "parameter magnitudes u = k/udiv, w = k/wdiv with divisors 1 .. 2^40 (Poisson means from the 1e-10 clip to thousands), "
+        "rows of u that are all zero; burn_in and intermediate steps from {0,1,5,40}, 3 consecutive samples per run, every run "
+        "executed twice instrumented with the same seed and (ustream=0) a third time without any instrumentation; the "
+        "truncated-Poisson sampler is the real one on real uniforms (ustream=0) or on uniform vectors in which entries are "
+        "replaced by extreme legal values 0, 2^-53, 1-2^-53, ... (ustream>0); the D44 witnesses (seeds whose uniforms round p "
+        "to P(X=0) / to 1) are replayed every run; plus direct calls of _pairwise_reshuffle, _deg_seq_to_dict, _extract_hye "
+        "(all four flag combinations) and sample_truncated_poisson (means 1e-300 .. 1e5, scalar and array). A case is distinct by its "
         "canonical input (mode, parameters, sequences / hyperedges, steps, seed); non-trivial when at least one accepted "
         "proposal changed the configuration (direct calls: when the call returned)")
 ASSUMPTIONS = [
@@ -29,10 +39,12 @@ ASSUMPTIONS = [
 ]
 TRUSTED = [
     "numpy Generator.choice(pop, size=k, replace=False) returns k distinct members of pop (checked on every recorded draw), Generator determinism under a seed",
-    "accept bit of _mcmc_step (rng.random() < transition_prob), truncated-Poisson weights and the inner model's Gaussian / Poisson draws are oracles of the model; only their types (bit, naturals) are used",
+    "accept bit of _mcmc_step (rng.random() < transition_prob), the quantiles scipy.stats.poisson.ppf returns inside sample_truncated_poisson and the inner model's Gaussian / Poisson draws are oracles of the model; only their types (bit, naturals) are used - the weight is max(quantile, 1) in the model, and every weight the real function returns is checked to be a finite integer >= 1",
     "Hypergraph(edge_list, weighted=True, weights) stores what it is given (C01)",
 ]
 BUDGET_S = {"quick": 55, "thorough": 800}
+# extreme values a numpy Generator.random() can return (multiples of 2^-53 in [0, 1))
+EXTREME_U = [0.0, 1.0 - 2.0 ** -53, 2.0 ** -53, 1.0 - 2.0 ** -24, 2.0 ** -30, 1.0 - 2.0 ** -52, 2.0 ** -20]
 STEPS = [0, 1, 5, 40]
 NSAMPLES = 3
 
@@ -65,7 +77,8 @@ class Trace:
         self.routine = None    # dict(init=..., fixed=..., yields=[...])
         self.extracts = []     # per _extract_hye: dict(...)
         self.match = None      # dict(deg_seq, dim_seq, fd, fm, result, flag)
-        self.weights = []      # per output: list of ints
+        self.weights = []      # per sample_truncated_poisson call: the returned values as naturals (0 = not a positive integer)
+        self.tp_calls = []     # per sample_truncated_poisson call: dict(mean, raw, quant, unif)
         self.step_marks = []   # number of steps done at each yield
 
 
@@ -92,7 +105,38 @@ def patched_default_rng(trace):
         np.random.default_rng = real
 
 
-def build_sampler(trace, u, w, D, exact, burn, thin, seed):
+class AdvRng(hgxv.RngProxy):
+    """the sampler's own seeded generator, recorded; with `every = k > 0` it is the adversarial draw source for the
+    truncated-Poisson weights: in each vector of uniforms `random(E)` the entries i with (i + call) % k == 0 are
+    replaced by extreme values that `Generator.random` can legally return.  Scalar draws (the accept test of
+    `_mcmc_step`) and every other method are untouched."""
+
+    def __init__(self, real, log, source, every=0):
+        super().__init__(real, log, source)
+        object.__setattr__(self, "_every", every)
+        object.__setattr__(self, "_calls", 0)
+
+    def __getattr__(self, name):
+        attr = getattr(self._real, name)
+        if not callable(attr):
+            return attr
+
+        def wrapper(*a, **k):
+            import numpy as np
+            r = attr(*a, **k)
+            if name == "random" and self._every and isinstance(r, np.ndarray) and r.ndim == 1:
+                c = self._calls
+                object.__setattr__(self, "_calls", c + 1)
+                r = r.copy()
+                for i in range(len(r)):
+                    if (i + c) % self._every == 0:
+                        r[i] = EXTREME_U[(i // self._every + c) % len(EXTREME_U)]
+            self._log.append((self._source, name, a, k, r))
+            return r
+        return wrapper
+
+
+def build_sampler(trace, u, w, D, exact, burn, thin, seed, ustream=0):
     """a HyMMSBMSampler with every randomness source and the chain routines recorded"""
     from hypergraphx.generation import hy_mmsbm_sampling as S
     with patched_default_rng(trace):
@@ -106,7 +150,7 @@ def build_sampler(trace, u, w, D, exact, burn, thin, seed):
     else:
         s._model._rng = hgxv.RngProxy(inner, trace.log, "inner")
     if not isinstance(s._rng, hgxv.RngProxy):
-        s._rng = hgxv.RngProxy(s._rng, trace.log, own_src)
+        s._rng = AdvRng(s._rng, trace.log, own_src, ustream)
 
     real_step = s._mcmc_step
 
@@ -169,31 +213,71 @@ def build_sampler(trace, u, w, D, exact, burn, thin, seed):
     return s
 
 
+def nat_of(v):
+    """a truncated-Poisson value / scipy quantile as a natural; None when it is not a finite integer"""
+    try:
+        f = float(v)
+    except Exception:  # noqa: BLE001
+        return None
+    if not math.isfinite(f) or f != math.floor(f) or abs(f) > 2 ** 62:
+        return None
+    return int(f)
+
+
 @contextlib.contextmanager
-def patched_poisson(trace, zero_every=0):
-    """records the truncated-Poisson weights; with `zero_every = k > 0` the oracle is made adversarial: every k-th
-    weight (deterministically) is replaced by 0 - the case 'sometimes the sampled weights are zero due to numerical
-    instabilities' that the output stage has to survive"""
+def recorded_poisson(trace):
+    """RECORD-ONLY wrappers: `sample_truncated_poisson` in the sampler's module (means, returned values, the uniforms
+    drawn meanwhile) and `stats.poisson.ppf` while it runs (the quantiles).  Nothing that is returned is altered -
+    the weights of every run are those of the real truncated-Poisson sampler."""
+    import numpy as np
     from hypergraphx.generation import hy_mmsbm_sampling as S
     real = S.sample_truncated_poisson
+    dist = S.stats.poisson
+    real_ppf = dist.ppf
+    active = []
+
+    def ppf(*a, **k):
+        r = real_ppf(*a, **k)
+        if active:
+            active[-1]["quant"] = [x for x in np.atleast_1d(np.asarray(r, dtype=float)).ravel()]
+        return r
 
     def wrapper(lambd, rng=None):
-        r = real(lambd, rng)
-        if zero_every:
-            call = len(trace.weights)
-            for i in range(len(r)):
-                if (i + call) % zero_every == 0:
-                    r[i] = 0.0
-        import numpy as np
-        with np.errstate(all="ignore"):
-            as_int = np.asarray(r).astype(int)       # what `sample` does next; weights <= 0 are dropped there
-        trace.weights.append([max(0, int(x)) for x in as_int])
+        n0 = len(trace.log)
+        rec = {"mean": [float(x) for x in np.atleast_1d(np.asarray(lambd, dtype=float)).ravel()], "quant": None}
+        active.append(rec)
+        try:
+            r = real(lambd, rng)
+        finally:
+            active.pop()
+        rec["unif"] = [float(x) for e in trace.log[n0:] if e[1] == "random" for x in np.atleast_1d(np.asarray(e[4], dtype=float)).ravel()]
+        rec["raw"] = [x for x in np.atleast_1d(np.asarray(r, dtype=float)).ravel()]
+        trace.tp_calls.append(rec)
+        trace.weights.append([(nat_of(x) if (nat_of(x) or 0) > 0 else 0) for x in rec["raw"]])
         return r
     S.sample_truncated_poisson = wrapper
+    dist.ppf = ppf            # instance attribute shadowing the method; removed again below
     try:
         yield
     finally:
         S.sample_truncated_poisson = real
+        try:
+            del dist.ppf
+        except AttributeError:
+            pass
+
+
+def quantile_tape(trace):
+    """per recorded call the naturals handed to the model: scipy's quantiles when they were seen (a negative quantile
+    - ppf answers -1 for p = 0 - counts as 0), else the values the function returned"""
+    tape = []
+    for rec, wl in zip(trace.tp_calls, trace.weights):
+        q = rec.get("quant")
+        if q is not None and len(q) == len(wl) and all(nat_of(x) is not None for x in q):
+            tape.append([max(0, nat_of(x)) for x in q])
+        else:
+            tape.append(list(wl))
+    return tape
 
 
 def show_h(h):
@@ -210,27 +294,69 @@ def plain(x):
     return x
 
 
+def case_params(case):
+    import numpy as np
+    return (np.array(case["u"], dtype=float) / float(case.get("udiv", 8)),
+            np.array(case["w"], dtype=float) / float(case.get("wdiv", 8)))
+
+
+def make_h0(case):
+    from hypergraphx import Hypergraph
+    h0 = Hypergraph(weighted=case.get("weighted", False))
+    for x in case.get("isolated", []):
+        h0.add_node(x)
+    for i, e in enumerate(case["edges"]):
+        if case.get("weighted", False):
+            h0.add_edge(tuple(e), weight=1 + i % 3)
+        else:
+            h0.add_edge(tuple(e))
+    return h0
+
+
+def run_naked(case):
+    """the same case on a sampler without ANY instrumentation (no proxy, no wrapper, nothing patched)"""
+    import numpy as np
+    from hypergraphx.generation.hy_mmsbm_sampling import HyMMSBMSampler
+    u, w = case_params(case)
+    res = {"hs": [], "out": [], "exc": None, "flag": None}
+    try:
+        with time_limit(case.get("limit", 10)):
+            s = HyMMSBMSampler(u=u.copy(), w=w.copy(), max_hye_size=case.get("D"), exact_dyadic_sampling=case.get("exact", True),
+                               burn_in_steps=case["burn"], intermediate_steps=case["thin"], seed=case["seed"])
+            if case["mode"] == "hyg":
+                res["h0"] = make_h0(case)
+                g = s.sample(initial_hyg=res["h0"])
+            elif case["mode"] == "seqs":
+                g = s.sample(deg_seq=np.array(case["deg_seq"], dtype=int), dim_seq={int(k): int(v) for k, v in case["dim_seq"]},
+                             allow_rescaling=case.get("rescale", False))
+            else:
+                g = s.sample()
+            for _ in range(case.get("nsamples", NSAMPLES)):
+                h = next(g)
+                res["hs"].append(h)
+                res["out"].append(show_h(h))
+            res["flag"] = s.matching_sequences
+    except Timeout:
+        res["exc"] = "timeout"
+    except Exception as e:  # noqa: BLE001
+        res["exc"] = type(e).__name__ + ": " + str(e)[:120]
+    return res
+
+
 def run_sampler(case, trace):
     """runs the real sampler on `case`; returns dict(out=[...] | exc=str, flag=..., hs=[Hypergraph])"""
     import numpy as np
     from hypergraphx import Hypergraph
-    u = np.array(case["u"], dtype=float) / 8.0
-    w = np.array(case["w"], dtype=float) / 8.0
+    u, w = case_params(case)
     res = {"hs": [], "out": [], "exc": None, "flag": None}
     try:
-        with time_limit(case.get("limit", 10)), patched_poisson(trace, case.get("zero_every", 0)):
-            s = build_sampler(trace, u, w, case.get("D"), case.get("exact", True), case["burn"], case["thin"], case["seed"])
+        with time_limit(case.get("limit", 10)), recorded_poisson(trace):
+            s = build_sampler(trace, u, w, case.get("D"), case.get("exact", True), case["burn"], case["thin"], case["seed"],
+                              case.get("ustream", 0))
             res["sampler"] = s
             with patched_default_rng(trace):
                 if case["mode"] == "hyg":
-                    h0 = Hypergraph(weighted=case.get("weighted", False))
-                    for x in case.get("isolated", []):
-                        h0.add_node(x)
-                    for i, e in enumerate(case["edges"]):
-                        if case.get("weighted", False):
-                            h0.add_edge(tuple(e), weight=1 + i % 3)
-                        else:
-                            h0.add_edge(tuple(e))
+                    h0 = make_h0(case)
                     res["h0"] = h0
                     g = s.sample(initial_hyg=h0)
                 elif case["mode"] == "seqs":
@@ -378,9 +504,20 @@ def count_sizes(edges):
     return c
 
 
-def oracle_outputs(ctx, case, res, trace, code_of):
-    """the property's clauses on every yielded Hypergraph"""
+def distinct_states(trace):
+    """per yield: True when no two hyperedges of the chain state (incl. the fixed dyads) coincide, None when the
+    routine was not observed"""
+    if trace is None or trace.routine is None:
+        return []
+    return [len({frozenset(e) for e in y}) == len(y) for y in trace.routine["yields"]]
+
+
+def oracle_outputs(ctx, case, res, trace, code_of, tag=""):
+    """the property's clauses on every yielded Hypergraph.  Exactness is demanded in the property's own words:
+    whenever no two hyperedges of the chain state the sample was made from coincide (the weights are those of the real
+    truncated-Poisson sampler in every stream: no excuse for a hyperedge that lost its weight)."""
     import numpy as np
+    distinct = distinct_states(trace)
     mode = case["mode"]
     N = len(case["u"])
     if mode == "hyg":
@@ -401,9 +538,11 @@ def oracle_outputs(ctx, case, res, trace, code_of):
                 cond_deg = {i: int(d) for i, d in enumerate(case["deg_seq"])}
     for k, h in enumerate(res["hs"]):
         where = {**case, "sample_no": k}
+        if tag:
+            where["run"] = tag
         if h.is_weighted() is not True:
             ctx.violation(where, f"sample {k} is not weighted")
-        edges = [tuple(e) for e in h.get_edges()]
+        edges = [tuple(plain(x) for x in e) for e in h.get_edges()]
         ws = list(h.get_weights())
         if len(ws) != len(edges):
             ctx.violation(where, f"sample {k}: {len(edges)} hyperedges but {len(ws)} weights")
@@ -421,20 +560,59 @@ def oracle_outputs(ctx, case, res, trace, code_of):
                 ctx.violation(where, f"sample {k}: hyperedge {e} has a node outside the {'initial hypergraph' if mode == 'hyg' else 'model'}")
         if cond_size is not None and case.get("equal_totals", True):
             total = sum(cond_size.values())
-            full = len(edges) == total       # nothing was dropped or merged
+            # no two sampled hyperedges coincided: seen on the recorded chain state; a run without recording (or whose
+            # routine was not observed) falls back to "as many hyperedges as conditioned" and, for an initial
+            # hypergraph with no MCMC step at all, to the initial configuration itself (distinct by construction)
+            if k < len(distinct):
+                full, why = distinct[k], "no two hyperedges of the chain state it was made from coincide"
+            elif mode == "hyg" and case["burn"] == 0 and case["thin"] == 0:
+                full, why = True, "burn_in_steps = intermediate_steps = 0, it is made from the initial hypergraph (pairwise distinct hyperedges)"
+            else:
+                full, why = len(edges) == total, "it has as many hyperedges as conditioned"
             sz = count_sizes(edges)
             for s_, c in sz.items():
                 if c > cond_size.get(s_, 0):
                     ctx.violation(where, f"sample {k}: {c} hyperedges of size {s_}, conditioned count {cond_size.get(s_, 0)}")
             if full and sz != cond_size:
-                ctx.violation(where, f"sample {k}: no hyperedge was dropped or merged but size counts {sz} != conditioned {cond_size}")
+                ctx.violation(where, f"sample {k}: {why}, but size counts {sz} != conditioned {cond_size}{lost_weights(trace, k)}")
             if cond_deg is not None:
                 dg = count_deg(edges)
                 for x, d in dg.items():
                     if d > cond_deg.get(x, 0):
                         ctx.violation(where, f"sample {k}: node {x!r} has degree {d}, conditioned degree {cond_deg.get(x, 0)}")
                 if full and any(dg.get(x, 0) != d for x, d in cond_deg.items()):
-                    ctx.violation(where, f"sample {k}: no hyperedge was dropped or merged but degrees {dg} != conditioned {cond_deg}")
+                    ctx.violation(where, f"sample {k}: {why}, but degrees {dg} != conditioned {cond_deg}{lost_weights(trace, k)}")
+
+
+def lost_weights(trace, k):
+    """explanation for a report: the recorded truncated-Poisson draws of sample k that are no positive integers"""
+    if trace is None or k >= len(trace.tp_calls):
+        return ""
+    rec = trace.tp_calls[k]
+    bad = [(i, float(rec["raw"][i]), rec["mean"][i] if i < len(rec["mean"]) else None, rec["unif"][i] if i < len(rec["unif"]) else None)
+           for i in range(len(rec["raw"])) if (nat_of(rec["raw"][i]) or 0) < 1]
+    if not bad:
+        return ""
+    return "; truncated-Poisson draws (index, value, mean, uniform) that are no positive integer: " + repr(bad[:4])
+
+
+def oracle_weights(ctx, case, trace):
+    """contract of the truncated Poisson Y = X | X > 0, observed on every recorded call of the REAL function: one
+    finite integer >= 1 per mean (the model's weights are max(quantile, 1); a value <= 0 / inf / nan makes `sample`
+    drop the hyperedge)"""
+    for k, rec in enumerate(trace.tp_calls):
+        ctx.count("tp_draws", len(rec["raw"]))
+        ctx.count("tp_mean_clipped", sum(1 for m in rec["mean"] if m <= 1.0e-10))
+        ctx.count("tp_mean_tiny", sum(1 for m in rec["mean"] if 1.0e-10 < m < 1.0e-6))
+        ctx.count("tp_mean_large", sum(1 for m in rec["mean"] if m > 100))
+        if rec["quant"] is not None:
+            ctx.count("tp_quantile_nonpositive", sum(1 for q in rec["quant"] if not q >= 1))
+        bad = [i for i, x in enumerate(rec["raw"]) if (nat_of(x) or 0) < 1]
+        if len(rec["raw"]) != len(rec["mean"]):
+            ctx.disagree({**case, "sample_no": k}, f"sample_truncated_poisson returned {len(rec['raw'])} values for {len(rec['mean'])} means")
+        elif bad:
+            ctx.disagree({**case, "sample_no": k}, "sample_truncated_poisson returned a value that is no integer >= 1 "
+                         f"(the model clamps every quantile to >= 1){lost_weights(trace, k)}")
 
 
 def oracle_chain(ctx, case, trace):
@@ -505,13 +683,16 @@ def check_case(ctx, drv, case):
         t1 = Trace()
         r1 = run_sampler(case, t1)
     r2 = run_sampler(case, t2) if r1["exc"] != "timeout" else r1
+    # third run, real uniforms only: a sampler that carries no instrumentation at all
+    r3 = run_naked(case) if (r1["exc"] != "timeout" and not case.get("ustream", 0)) else None
     key = repr(sorted((k, repr(v)) for k, v in case.items()))
     changed = any(acc for _, acc in t1.steps) and t1.routine is not None and any(y != t1.routine["init"] + t1.routine["fixed"] for y in t1.routine["yields"])
     ctx.case(key, bool(changed), sample=case)
     ctx.count("mode_" + mode)
+    ctx.count("ustream_real" if not case.get("ustream", 0) else "ustream_extreme")
     ctx.count("steps", len(t1.steps))
     ctx.count("accepted", sum(acc for _, acc in t1.steps))
-    if r1["exc"] == "timeout" or r2["exc"] == "timeout":
+    if r1["exc"] == "timeout" or r2["exc"] == "timeout" or (r3 is not None and r3["exc"] == "timeout"):
         ctx.violation(case, "the sampler did not deliver its samples within the time limit (non-termination guard)")
         ctx.extra["timed_out"] = True
         return
@@ -528,12 +709,21 @@ def check_case(ctx, drv, case):
         ctx.violation(case, "two samplers built with the same parameters and seed produced different sequences of samples; "
                       f"generator calls by source: {src}, generators were built with default_rng{tuple(t1.rng_seeds)!r} "
                       "(a source other than the sampler's seeded generator feeds the run)")
+    if r3 is not None and (r1["out"], r1["exc"] is None) != (r3["out"], r3["exc"] is None):
+        ctx.violation({**case, "run": "uninstrumented"},
+                      "a sampler without any instrumentation and the recorded sampler, built with the same parameters and seed, "
+                      f"produced different sequences of samples: {str(r3['out'])[:300]} ({r3['exc']}) vs {str(r1['out'])[:300]} ({r1['exc']})")
     if r1["flag"] is not None:
         ctx.count("flag_true" if r1["flag"] else "flag_false")
 
     # -- property oracles on the real outputs
     try:
         oracle_outputs(ctx, case, r1, t1, None)
+        if r3 is not None:
+            # the property's clauses on the un-instrumented run, judged without any recording
+            oracle_outputs(ctx, {**case, "equal_totals": case.get("equal_totals", True)},
+                           r3, None, None, tag="uninstrumented")
+        oracle_weights(ctx, case, t1)
         oracle_chain(ctx, case, t1)
         oracle_matching(ctx, case, t1)
     except Exception as e:  # noqa: BLE001 - the outputs do not even have the shape of a hypergraph
@@ -549,9 +739,7 @@ def check_case(ctx, drv, case):
             raise BadTrace(f"{len(burn)} steps before the first block and blocks of {[len(b) for b in blocks]} steps, "
                            f"expected burn_in_steps={case['burn']} and intermediate_steps={case['thin']} per sample")
         n_out = len(r1["out"])
-        weights = []
-        for wl in t1.weights:
-            weights.append([int(x) for x in wl])
+        weights = quantile_tape(t1)
         lines, expect = [], []
         if t1.routine:
             rec = t1.routine
@@ -751,7 +939,49 @@ def direct_extract(ctx, drv, rng):
 # ------------------------------------------------------------------------------------------
 # generators
 
+def gen_hard_uw(rng, N, rounded=False):
+    """hard communities: one-hot memberships and a diagonal affinity matrix - every hyperedge without two nodes of
+    the same community has the Poisson parameter 0 exactly (`rounded`: 3-5 communities and a wide range of values,
+    meant for divisors that are no powers of two - the parameters are then rounded sums)"""
+    K = rng.choice([3, 3, 4, 5]) if rounded else rng.choice([2, 3, 3, 4])
+    vals = [1, 3, 7, 10, 19, 27, 30, 33, 61, 99, 270] if rounded else [1, 1, 8, 8, 3, 5, 7, 19, 27]
+    u = [[0] * K for _ in range(N)]
+    for i, row in enumerate(u):
+        row[i % K if rng.random() < 0.5 else rng.randrange(K)] = rng.choice(vals)
+    if rng.random() < 0.15:
+        u[rng.randrange(N)] = [0] * K            # a node that belongs to no community
+    w = [[0] * K for _ in range(K)]
+    for a in range(K):
+        w[a][a] = rng.randint(1, 24)
+    return u, w
+
+
+def gen_magnitude(rng, large=True):
+    """divisors of the integer matrices: Poisson means from (far) below the 1e-10 clip up to the thousands
+    (`large=False` when the model itself draws the sequences: the number of hyperedges grows with the parameters)"""
+    r = rng.random()
+    if r < 0.5:
+        return {}
+    if r < 0.62:
+        # not dyadic: products and sums of the parameters are rounded (the closed form of the Poisson parameters
+        # cancels to a tiny negative number instead of 0 for some hyperedges without two nodes of a common community)
+        return {"udiv": rng.choice([10, 7, 3, 100]), "wdiv": rng.choice([8, 10, 3])}
+    if r < 0.74:
+        if not large:
+            return {"udiv": 16}
+        return {"udiv": 1, "wdiv": rng.choice([1, 8])}                       # large means, weights in the hundreds
+    if r < 0.86:
+        return {"udiv": 2 ** rng.choice([6, 10, 14]), "wdiv": 8}             # means 1e-3 .. 1e-9: tiny, not clipped
+    return {"udiv": 2 ** rng.choice([20, 30, 40]), "wdiv": rng.choice([8, 2 ** 20])}    # below the clip
+
+
+def gen_streams(rng):
+    return {"ustream": rng.choice([0, 0, 0, 1, 2, 3])}
+
+
 def gen_uw(rng, N):
+    if rng.random() < 0.3 and N >= 2:
+        return gen_hard_uw(rng, N)
     K = rng.randint(1, 3)
     scale = rng.choice([2, 4, 8, 16])
     if rng.random() < 0.6 and K > 1:
@@ -764,7 +994,7 @@ def gen_uw(rng, N):
     else:
         u = [[rng.randint(0, scale) for _ in range(K)] for _ in range(N)]
     for row in u:
-        if not any(row):
+        if not any(row) and rng.random() < 0.85:
             row[rng.randrange(K)] = 1
     w = [[0] * K for _ in range(K)]
     for a in range(K):
@@ -801,7 +1031,53 @@ def gen_hyg(rng):
     u, w = gen_uw(rng, len(nodes) + extra)
     return {"mode": "hyg", "edges": [list(e) for e in edges], "isolated": iso, "weighted": rng.random() < 0.2,
             "u": u, "w": w, "D": None, "exact": True, "burn": rng.choice(STEPS), "thin": rng.choice(STEPS),
-            "seed": rng.randint(0, 10**6), "zero_every": rng.choice([0, 0, 0, 2, 3])}
+            "seed": rng.randint(0, 10**6), **gen_magnitude(rng), **gen_streams(rng)}
+
+
+def gen_hard(rng):
+    """(H) the class of D44 / of a lowered clip: hard communities, hyperedges that join different communities only
+    (Poisson parameter structurally 0 -> the clipped mean), few MCMC steps so that they survive in the chain;
+    as an initial hypergraph or as degree / size sequences of such a hypergraph"""
+    rounded = rng.random() < 0.4
+    n = rng.randint(6, 14) if rounded else rng.randint(4, 12)
+    u, w = gen_hard_uw(rng, n, rounded)
+    comm = [next((k for k, x in enumerate(row) if x), -1 - i) for i, row in enumerate(u)]
+    edges, seen = [], set()
+    target = rng.randint(5, 20) if rounded else rng.randint(2, 16)
+    for _ in range(80):
+        size = rng.choice([3, 3, 4, 4, 5, 2]) if rounded else rng.choice([2, 2, 2, 3, 3, 4])
+        if rng.random() < (0.85 if rounded else 0.65):
+            # cross-community only: at most one node per community
+            pick = {}
+            for x in rng.sample(range(n), n):
+                pick.setdefault(comm[x], x)
+            e = tuple(sorted(rng.sample(sorted(pick.values()), min(size, len(pick)))))
+        else:
+            e = tuple(sorted(rng.sample(range(n), min(size, n))))
+        if len(e) >= 2 and e not in seen:
+            seen.add(e)
+            edges.append(e)
+        if len(edges) >= target:
+            break
+    if len(edges) < 2:
+        edges = [(0, 1), (1, 2)]
+    steps = [0, 0, 0, 1, 1, 2, 5]
+    div = ({"udiv": rng.choice([10, 7, 3, 100]), "wdiv": rng.choice([8, 10, 3])} if rounded else
+           {"udiv": rng.choice([1, 8, 8, 2 ** 12, 10]), "wdiv": rng.choice([1, 8, 10])})
+    base = {"u": u, "w": w, "D": None, "exact": True, "burn": rng.choice(steps), "thin": rng.choice(steps),
+            "seed": rng.randint(0, 10**6), **div, **gen_streams(rng)}
+    if rng.random() < 0.6:
+        used = {x for e in edges for x in e}
+        # labels are the node indices: the unused nodes are added as isolated ones so that row i of u is node i
+        iso = [x for x in range(n) if x not in used]
+        return {"mode": "hyg", "edges": [list(e) for e in edges], "isolated": iso, "weighted": False, **base}
+    deg = [0] * n
+    for e in edges:
+        for x in e:
+            deg[x] += 1
+    dim = list(count_sizes(edges).items())
+    rng.shuffle(dim)
+    return {"mode": "seqs", "deg_seq": deg, "dim_seq": [[k, v] for k, v in dim], "equal_totals": True, "rescale": False, **base}
 
 
 def gen_seqs(rng):
@@ -829,7 +1105,7 @@ def gen_seqs(rng):
     u, w = gen_uw(rng, N)
     return {"mode": "seqs", "deg_seq": deg, "dim_seq": [[k, v] for k, v in dim], "equal_totals": equal,
             "rescale": rng.random() < 0.15, "u": u, "w": w, "D": None, "exact": True, "burn": rng.choice(STEPS),
-            "thin": rng.choice(STEPS), "seed": rng.randint(0, 10**6), "zero_every": rng.choice([0, 0, 0, 2, 3])}
+            "thin": rng.choice(STEPS), "seed": rng.randint(0, 10**6), **gen_magnitude(rng), **gen_streams(rng)}
 
 
 def gen_model(rng):
@@ -837,7 +1113,84 @@ def gen_model(rng):
     u, w = gen_uw(rng, N)
     return {"mode": "model", "u": u, "w": w, "D": rng.randint(3, min(5, N)), "exact": rng.random() < 0.6,
             "burn": rng.choice(STEPS), "thin": rng.choice(STEPS), "seed": rng.randint(0, 10**6),
-            "zero_every": rng.choice([0, 0, 0, 3])}
+            **gen_magnitude(rng, large=False), **gen_streams(rng)}
+
+
+def witness_cases():
+    """D44 (fixed): one-hot u (4 + 4 nodes), w = diag(3, 2), the 16 dyads joining the two communities (Poisson
+    parameter 0 -> clipped mean 1e-10), no MCMC step.  With these seeds one of the 16 uniforms of the first sample is
+    within 5.5e-7 of 0 (p rounds to P(X = 0): quantile 0) resp. of 1 (p rounds to 1: quantile inf); the unrepaired
+    sample_truncated_poisson returned 0 / inf there and `sample` dropped the hyperedge.  Regression: must pass."""
+    u = [[1, 0]] * 4 + [[0, 1]] * 4
+    edges = [[a, 4 + (a + d) % 4] for d in range(4) for a in range(4)]
+    for seed in (11970, 30015, 55667, 207828):
+        yield {"mode": "hyg", "edges": edges, "isolated": [], "weighted": False, "u": u, "w": [[3, 0], [0, 2]], "udiv": 1, "wdiv": 1,
+               "D": None, "exact": True, "burn": 0, "thin": 0, "seed": seed, "ustream": 0, "witness": "D44"}
+    # D45 (fixed): parameters that are no dyadic fractions; 0.5 * (s^T w s - sum_i u_i^T w u_i) of the hyperedge {4, 6, 8}
+    # (three communities, diagonal w) is -2.8e-17 instead of 0: log -> nan mean -> nan weight -> hyperedge dropped, for every seed
+    u = [[270, 0, 0], [0, 19, 0], [0, 0, 19], [30, 0, 0], [0, 30, 0], [0, 0, 10], [10, 0, 0], [0, 10, 0], [0, 0, 30]]
+    for burn, seed in ((0, 1), (1, 2)):
+        yield {"mode": "hyg", "edges": [[4, 6, 8], [0, 3], [1, 4, 7], [2, 3, 4]], "isolated": [5], "weighted": False, "u": u,
+               "w": [[15, 0, 0], [0, 23, 0], [0, 0, 15]], "udiv": 100, "wdiv": 8, "D": None, "exact": True, "burn": burn, "thin": 0,
+               "seed": seed, "ustream": 0, "witness": "D45"}
+
+
+TP_MEANS = [1.0e-300, 1.0e-30, 1.0e-17, 1.0e-12, 1.0e-10, 1.0e-10, 3.0e-9, 1.0e-7, 1.0e-4, 0.01, 0.3, 0.6931, 0.7, 1.0, 2.5, 30.0,
+            200.0, 745.0, 800.0, 5000.0, 1.0e5]
+
+
+def direct_trunc(ctx, drv, rng):
+    """sample_truncated_poisson itself: array and scalar means from 1e-300 to 1e5, real and extreme uniforms; the
+    value is a finite integer >= 1 per mean, equal to max(scipy's quantile, 1) (model `truncWeights`), and at least
+    the quantile; same generator state -> same values"""
+    import numpy as np
+    from hypergraphx.generation import hy_mmsbm_sampling as S
+    scalar = rng.random() < 0.15
+    k = 1 if scalar else rng.randint(1, 12)
+    means = [rng.choice(TP_MEANS) * rng.choice([1.0, 1.0, 0.5, 3.0]) for _ in range(k)]
+    seed = rng.randint(0, 10**6)
+    every = rng.choice([0, 0, 1, 1, 2, 3])
+    case = {"mode": "trunc", "means": means, "scalar": scalar, "seed": seed, "ustream": every}
+    outs = []
+    tr = Trace()
+    for rep_no in range(2):
+        t = tr if rep_no == 0 else Trace()
+        g = AdvRng(np.random.default_rng(seed), t.log, "own", every)
+        try:
+            with time_limit(5), recorded_poisson(t), np.errstate(all="ignore"):
+                r = S.sample_truncated_poisson(means[0] if scalar else np.array(means, dtype=float), g)
+            outs.append([x for x in np.atleast_1d(np.asarray(r, dtype=float)).ravel()])
+        except Timeout:
+            ctx.violation(case, "sample_truncated_poisson did not return")
+            return
+        except Exception as e:  # noqa: BLE001
+            outs.append("exc " + type(e).__name__ + ": " + str(e)[:80])
+    ctx.case(repr(case), not isinstance(outs[0], str))
+    ctx.count("direct_trunc")
+    if isinstance(outs[0], str):
+        ctx.violation(case, f"sample_truncated_poisson raised {outs[0]} on positive means")
+        return
+    if repr(outs[0]) != repr(outs[1]):
+        ctx.violation(case, f"sample_truncated_poisson: same generator state, different values {outs[0]} / {outs[1]}")
+    vals = outs[0]
+    bad = [(i, float(vals[i]), means[i] if i < len(means) else None) for i in range(len(vals)) if (nat_of(vals[i]) or 0) < 1]
+    if len(vals) != len(means):
+        ctx.violation(case, f"sample_truncated_poisson returned {len(vals)} values for {len(means)} means")
+        return
+    if bad:
+        unif = tr.tp_calls[0]["unif"] if tr.tp_calls else []
+        ctx.violation(case, "sample_truncated_poisson returned values that are no positive integers (index, value, mean): "
+                      f"{bad[:4]}; uniforms {unif[:12]} - `sample` drops such hyperedges")
+        return
+    rec = tr.tp_calls[0] if tr.tp_calls else None
+    if drv is None or rec is None or rec["quant"] is None or len(rec["quant"]) != len(vals) or any(nat_of(q) is None for q in rec["quant"]):
+        return
+    q = [max(0, nat_of(x)) for x in rec["quant"]]
+    ctx.count("direct_trunc_quantile_zero", sum(1 for x in q if x == 0))
+    a = drv.ask(f"trunc {hgxv.enc_list(q)}")
+    want = hgxv.enc_list([nat_of(x) for x in vals])
+    if a != want:
+        ctx.disagree(case, f"sample_truncated_poisson: model max(quantile, 1) = {a!r}, implementation {want!r} (quantiles {q})")
 
 
 def quiet():
@@ -850,14 +1203,17 @@ def quiet():
 def run(ctx):
     quiet()
     drv = ctx.driver() if ctx.model_available else None
-    n = ctx.scale(210, 4500)
-    gens = [gen_hyg, gen_seqs, gen_model]
+    n = ctx.scale(360, 4400)
+    for case in witness_cases():
+        check_case(ctx, drv, case)
+    gens = [gen_hyg, gen_seqs, gen_model, gen_hard]
     for i in range(n):
-        case = gens[i % 3](ctx.rng)
+        case = gens[i % 4](ctx.rng)
         check_case(ctx, drv, case)
         for _ in range(2):
             direct_reshuffle(ctx, drv, ctx.rng)
             direct_extract(ctx, drv, ctx.rng)
+            direct_trunc(ctx, drv, ctx.rng)
         direct_dict(ctx, drv, ctx.rng)
         if ctx.too_many() or ctx.extra.get("timed_out") or (ctx.time_left() is not None and ctx.time_left() < 5):
             break
@@ -866,7 +1222,7 @@ def run(ctx):
 def replay(ctx, case):
     quiet()
     drv = ctx.driver() if ctx.model_available else None
-    case = {k: v for k, v in case.items() if k not in ("line", "sample_no", "exc")}
+    case = {k: v for k, v in case.items() if k not in ("line", "sample_no", "exc", "run", "zero_every")}
     mode = case.get("mode")
     if mode in ("hyg", "seqs", "model"):
         if mode == "hyg":
